@@ -1918,7 +1918,7 @@ func (r *vRunner) reprocessMsg(p *vPair) *nats.Msg {
 		r.t.Fatal(err)
 	}
 	_ = r.natsConn.Flush()
-	msg, err := r.natsSub.NextMsg(5 * time.Second)
+	msg, err := r.natsSub.NextMsg(60 * time.Second)
 	if err != nil {
 		r.t.Fatal(err)
 	}
